@@ -76,7 +76,10 @@ def build_world(ctx):
     N = int(r.integers(8, 20))
     w, m, v, _ = gen.gmm_params(r, C, D, scales=np.ones(D))
     W = World()
-    X = W.own("X", gen.sample_data(r, w, m, v, N))
+    X0 = gen.sample_data(r, w, m, v, N)
+    if r.random() < 0.35:  # the caller's training array in Fortran order (e.g. the transpose of a feature-major matrix): the same values
+        X0 = np.asfortranarray(X0)
+    X = W.own("X", X0)
     y = [int(a) for a in np.arange(N) % 2]
     W.labels = y
     W.labels_copy = list(y)
